@@ -1,3 +1,283 @@
 import KoordVerif.Model.C13
+/-
+C13 — property theorems (DESIGN.md §4 C13).  Quantities are nano-unit integers; CPU amounts
+"in milli-cores" are `milliValue q` (round up, as Quantity.MilliValue()).
+-/
 namespace KoordVerif.C13
+
+/-! ### 2. priority value ↦ class: total, the four ranges of the protocol, gaps map to none -/
+
+theorem class_of_priority (p : Int) :
+    getPriorityClassByPriority stdRanges p =
+      if 9000 ≤ p ∧ p ≤ 9999 then PC.prod
+      else if 7000 ≤ p ∧ p ≤ 7999 then PC.mid
+      else if 5000 ≤ p ∧ p ≤ 5999 then PC.batch
+      else if 3000 ≤ p ∧ p ≤ 3999 then PC.free
+      else PC.none := by
+  simp only [getPriorityClassByPriority, stdRanges, ge_iff_le]
+
+theorem class_gaps_none (p : Int)
+    (h : p < 3000 ∨ (3999 < p ∧ p < 5000) ∨ (5999 < p ∧ p < 7000) ∨ (7999 < p ∧ p < 9000) ∨ 9999 < p) :
+    getPriorityClassByPriority stdRanges p = PC.none := by
+  rw [class_of_priority]
+  repeat' split
+  all_goals first | rfl | omega
+
+theorem class_ranges_disjoint (p : Int) :
+    (getPriorityClassByPriority stdRanges p = PC.prod ↔ 9000 ≤ p ∧ p ≤ 9999) ∧
+    (getPriorityClassByPriority stdRanges p = PC.mid ↔ 7000 ≤ p ∧ p ≤ 7999) ∧
+    (getPriorityClassByPriority stdRanges p = PC.batch ↔ 5000 ≤ p ∧ p ≤ 5999) ∧
+    (getPriorityClassByPriority stdRanges p = PC.free ↔ 3000 ≤ p ∧ p ≤ 3999) := by
+  rw [class_of_priority]
+  refine ⟨?_, ?_, ?_, ?_⟩ <;> repeat' split
+  all_goals first | (simp; done) | (simp; omega) | (constructor <;> intro h <;> first | omega | cases h)
+
+/-! ### 1. the admission decision table -/
+
+/-- the permitted (QoS, priority class) pairs, in the words of the property. -/
+def PermittedPair (q : QoS) (c : PC) : Prop :=
+  ¬ (q = QoS.be ∧ (c = PC.prod ∨ c = PC.none)) ∧ (q = QoS.lsr → c = PC.prod)
+
+instance (q : QoS) (c : PC) : Decidable (PermittedPair q c) := by unfold PermittedPair; infer_instance
+
+/-- a whole number of CPUs, counted in milli-cores. -/
+def WholeCPU (cpu : Int) : Prop := milliValue cpu % 1000 = 0
+
+/-- the protocol. -/
+def Admissible (k : Ranges) (gateSkipPriority : Bool) (op : Nat) (old new : Pod) : Prop :=
+  PermittedPair (qosRaw new) (pcRaw k new) ∧
+  ((qosRaw new = QoS.lsr ∨ qosRaw new = QoS.lse) → podRequest new Res.cpu ≠ 0 ∧ WholeCPU (podRequest new Res.cpu)) ∧
+  ((podRequest new Res.batchCPU ≠ 0 ∨ podRequest new Res.batchMemory ≠ 0) → qosRaw new = QoS.be) ∧
+  (op = 1 → qosRaw new = qosRaw old ∧ pcRaw k new = pcRaw k old ∧
+            (gateSkipPriority = false → new.subPrio = old.subPrio))
+
+/-- the code's integrality test `Value()*1000 == MilliValue()` is "milli-cores divisible by 1000". -/
+theorem whole_cpu_check_iff (q : Int) : unitValue q * 1000 = milliValue q ↔ WholeCPU q := by
+  unfold WholeCPU unitValue milliValue; omega
+
+theorem forbidden_table_iff (q : QoS) (c : PC) :
+    forbiddenTable.flatMap (fun e => if q = e.1 then (if e.2.contains c then [Rule.forbiddenPair e.1] else []) else []) = []
+      ↔ PermittedPair q c := by
+  cases q <;> cases c <;> decide
+
+theorem admit_iff (k : Ranges) (gate : Bool) (op : Nat) (old new : Pod) :
+    validateAllowed k gate op old new = true ↔ Admissible k gate op old new := by
+  have hf := forbidden_table_iff (qosRaw new) (pcRaw k new)
+  unfold validateAllowed validateErrs Admissible
+  simp only [List.isEmpty_iff, List.append_eq_nil_iff]
+  have hforb : forbiddenTable.flatMap (forbidSpecial k new) = [] ↔ PermittedPair (qosRaw new) (pcRaw k new) := by
+    rw [← hf]; rfl
+  rw [hforb]
+  have hres : validateResources new = [] ↔
+      ((qosRaw new = QoS.lsr ∨ qosRaw new = QoS.lse) → podRequest new Res.cpu ≠ 0 ∧ WholeCPU (podRequest new Res.cpu)) := by
+    unfold validateResources
+    simp only []
+    by_cases hq : qosRaw new = QoS.lsr ∨ qosRaw new = QoS.lse
+    · simp only [hq, if_true, true_implies]
+      by_cases h0 : podRequest new Res.cpu = 0
+      · simp [h0]
+      · by_cases hw : unitValue (podRequest new Res.cpu) * 1000 = milliValue (podRequest new Res.cpu)
+        · simp [h0, hw, (whole_cpu_check_iff _).mp hw]
+        · have : ¬ WholeCPU (podRequest new Res.cpu) := fun h => hw ((whole_cpu_check_iff _).mpr h)
+          simp [h0, hw, this]
+    · simp [hq]
+  have hreq : validateRequiredQoSClass new = [] ↔
+      ((podRequest new Res.batchCPU ≠ 0 ∨ podRequest new Res.batchMemory ≠ 0) → qosRaw new = QoS.be) := by
+    unfold validateRequiredQoSClass
+    by_cases hz : podRequest new Res.batchCPU = 0 ∧ podRequest new Res.batchMemory = 0
+    · simp [hz]
+    · by_cases hb : qosRaw new = QoS.be
+      · simp [hz, hb]
+      · simp only [hz, hb, if_false]
+        constructor
+        · intro h; cases h
+        · intro h; exfalso; exact h (by omega)
+  rw [hres, hreq]
+  by_cases hop : op = 1
+  · simp only [hop, if_true, true_implies, List.append_eq_nil_iff]
+    by_cases h1 : qosRaw new = qosRaw old <;> by_cases h2 : pcRaw k new = pcRaw k old <;>
+      by_cases h3 : new.subPrio = old.subPrio <;> cases gate <;> simp [h1, h2, h3] <;> grind
+  · simp only [hop, if_false, false_implies, and_true, true_and]
+    grind
+
+/-- the property's first sentence, as implications of an `allowed` verdict. -/
+theorem admitted_obeys_protocol (k : Ranges) (gate : Bool) (op : Nat) (old new : Pod)
+    (h : validateAllowed k gate op old new = true) :
+    (qosRaw new = QoS.be → pcRaw k new ≠ PC.prod ∧ pcRaw k new ≠ PC.none) ∧
+    (qosRaw new = QoS.lsr → pcRaw k new = PC.prod) ∧
+    ((qosRaw new = QoS.lsr ∨ qosRaw new = QoS.lse) → milliValue (podRequest new Res.cpu) % 1000 = 0) ∧
+    ((podRequest new Res.batchCPU ≠ 0 ∨ podRequest new Res.batchMemory ≠ 0) → qosRaw new = QoS.be) ∧
+    (op = 1 → qosRaw new = qosRaw old ∧ pcRaw k new = pcRaw k old) := by
+  obtain ⟨⟨hp1, hp2⟩, hw, hb, hu⟩ := (admit_iff k gate op old new).mp h
+  refine ⟨?_, hp2, fun hq => (hw hq).2, hb, fun ho => ⟨(hu ho).1, (hu ho).2.1⟩⟩
+  intro hbe
+  constructor <;> intro hc <;> exact hp1 ⟨hbe, by simp [hc]⟩
+
+/-! ### 3–5. tier translation of one resource list / one container -/
+
+/-- the pod's class selects a tier with extended resource names (mid or batch). -/
+def IsTier (pc : PC) : Prop := pc = PC.batch ∨ pc = PC.mid
+
+def tierCPU : PC → Res
+  | PC.mid => Res.midCPU
+  | _ => Res.batchCPU
+
+def tierMem : PC → Res
+  | PC.mid => Res.midMemory
+  | _ => Res.batchMemory
+
+/-- closed form of the two `replaceAndEraseResource` calls on one list. -/
+theorem replaceBoth_eq (pc : PC) (h : IsTier pc) (l : RL) (x : Res) :
+    replaceBoth pc l x =
+      if x = Res.cpu ∨ x = Res.memory then none
+      else if x = tierCPU pc then (match l Res.cpu with | some q => some (milliValue q * 1000000000) | none => l (tierCPU pc))
+      else if x = tierMem pc then (match l Res.memory with | some q => some q | none => l (tierMem pc))
+      else l x := by
+  rcases h with rfl | rfl <;> cases x <;> cases h1 : l Res.cpu <;> cases h2 : l Res.memory <;>
+    simp [replaceBoth, replaceAndErase, resourceNameMap, RL.set, RL.erase, tierCPU, tierMem, newQuantity, nanoPerUnit, h1, h2]
+
+/-- 3. `translate_preserves_amounts` for one list: the tier entry carries the native amount
+    (CPU as the count of milli-cores, memory unchanged); without a native entry the tier entry
+    is left alone; every other resource is untouched. -/
+theorem translate_preserves_amounts (pc : PC) (h : IsTier pc) (l : RL) :
+    (∀ q, l Res.cpu = some q → replaceBoth pc l (tierCPU pc) = some (milliValue q * 1000000000)) ∧
+    (∀ q, l Res.memory = some q → replaceBoth pc l (tierMem pc) = some q) ∧
+    (l Res.cpu = none → replaceBoth pc l (tierCPU pc) = l (tierCPU pc)) ∧
+    (l Res.memory = none → replaceBoth pc l (tierMem pc) = l (tierMem pc)) ∧
+    (∀ x, x ≠ Res.cpu → x ≠ Res.memory → x ≠ tierCPU pc → x ≠ tierMem pc → replaceBoth pc l x = l x) := by
+  refine ⟨?_, ?_, ?_, ?_, ?_⟩
+  · intro q hq; rw [replaceBoth_eq pc h]; rcases h with rfl | rfl <;> simp [tierCPU, hq]
+  · intro q hq; rw [replaceBoth_eq pc h]; rcases h with rfl | rfl <;> simp [tierCPU, tierMem, hq]
+  · intro hq; rw [replaceBoth_eq pc h]; rcases h with rfl | rfl <;> simp [tierCPU, hq]
+  · intro hq; rw [replaceBoth_eq pc h]; rcases h with rfl | rfl <;> simp [tierCPU, tierMem, hq]
+  · intro x h1 h2 h3 h4; rw [replaceBoth_eq pc h]; simp [h1, h2, h3, h4]
+
+/-- 4. `native_erased` for one list. -/
+theorem native_erased_list (pc : PC) (h : IsTier pc) (l : RL) :
+    replaceBoth pc l Res.cpu = none ∧ replaceBoth pc l Res.memory = none := by
+  constructor <;> rw [replaceBoth_eq pc h] <;> simp
+
+/-- a list without native entries is a fixed point. -/
+theorem replaceBoth_noop (pc : PC) (l : RL) (h1 : l Res.cpu = none) (h2 : l Res.memory = none) :
+    replaceBoth pc l = l := by
+  funext x
+  cases pc <;> simp [replaceBoth, replaceAndErase, resourceNameMap, h1, h2]
+
+/-- closed form of the loop body of mutatePodResourceSpec for one container: limits are the
+    translated limits; a request is the translated request, else (tier names only) the limit. -/
+theorem mutateCtr_spec (pc : PC) (h : IsTier pc) (c : Ctr) :
+    (mutateCtr pc c).name = c.name ∧ (mutateCtr pc c).lim = replaceBoth pc c.lim ∧
+    ∀ x, (mutateCtr pc c).req x =
+      match replaceBoth pc c.req x with
+      | some v => some v
+      | none => if x = tierCPU pc ∨ x = tierMem pc then replaceBoth pc c.lim x else none := by
+  have key : ∀ (d : Ctr) (r : Res) (e : Res), resourceNameMap pc r = some e →
+      (restrict pc d r).name = d.name ∧ (restrict pc d r).lim = d.lim ∧
+      ∀ x, (restrict pc d r).req x = match d.req x with
+        | some v => some v
+        | none => if x = e then d.lim e else none := by
+    intro d r e he
+    unfold restrict
+    rw [he]
+    cases h1 : d.req e <;> cases h2 : d.lim e <;> simp only [] <;> refine ⟨rfl, rfl, ?_⟩ <;> intro x <;>
+      by_cases hx : x = e <;> simp [RL.set, hx, h1, h2] <;> cases d.req x <;> simp
+  have hc : resourceNameMap pc Res.cpu = some (tierCPU pc) := by rcases h with rfl | rfl <;> rfl
+  have hm : resourceNameMap pc Res.memory = some (tierMem pc) := by rcases h with rfl | rfl <;> rfl
+  have hne : tierCPU pc ≠ tierMem pc := by rcases h with rfl | rfl <;> simp [tierCPU, tierMem]
+  obtain ⟨a1, a2, a3⟩ := key (translated pc c) Res.cpu _ hc
+  obtain ⟨b1, b2, b3⟩ := key (restrict pc (translated pc c) Res.cpu) Res.memory _ hm
+  refine ⟨?_, ?_, ?_⟩
+  · unfold mutateCtr; rw [b1, a1]; rfl
+  · unfold mutateCtr; rw [b2, a2]; rfl
+  · intro x
+    unfold mutateCtr
+    rw [b3, a3, a2]
+    show (match (match replaceBoth pc c.req x with | some v => some v | none => if x = tierCPU pc then replaceBoth pc c.lim (tierCPU pc) else none) with
+          | some v => some v | none => if x = tierMem pc then replaceBoth pc c.lim (tierMem pc) else none) = _
+    cases replaceBoth pc c.req x with
+    | some v => simp
+    | none =>
+      by_cases h1 : x = tierCPU pc
+      · subst h1; simp [hne]; cases replaceBoth pc c.lim (tierCPU pc) <;> simp
+      · by_cases h2 : x = tierMem pc
+        · subst h2; simp [h1]
+        · simp [h1, h2]
+
+/-- 3. every container's request and limit keep their declared amounts. -/
+theorem container_amounts_kept (pc : PC) (h : IsTier pc) (c : Ctr) :
+    (∀ q, c.lim Res.cpu = some q → (mutateCtr pc c).lim (tierCPU pc) = some (milliValue q * 1000000000)) ∧
+    (∀ q, c.lim Res.memory = some q → (mutateCtr pc c).lim (tierMem pc) = some q) ∧
+    (∀ q, c.req Res.cpu = some q → (mutateCtr pc c).req (tierCPU pc) = some (milliValue q * 1000000000)) ∧
+    (∀ q, c.req Res.memory = some q → (mutateCtr pc c).req (tierMem pc) = some q) ∧
+    (∀ x, x ≠ Res.cpu → x ≠ Res.memory → x ≠ tierCPU pc → x ≠ tierMem pc →
+        (mutateCtr pc c).req x = c.req x ∧ (mutateCtr pc c).lim x = c.lim x) := by
+  obtain ⟨_, hl, hr⟩ := mutateCtr_spec pc h c
+  obtain ⟨l1, l2, _, _, l5⟩ := translate_preserves_amounts pc h c.lim
+  obtain ⟨r1, r2, _, _, r5⟩ := translate_preserves_amounts pc h c.req
+  refine ⟨?_, ?_, ?_, ?_, ?_⟩
+  · intro q hq; rw [hl]; exact l1 q hq
+  · intro q hq; rw [hl]; exact l2 q hq
+  · intro q hq; rw [hr, r1 q hq]
+  · intro q hq; rw [hr, r2 q hq]
+  · intro x h1 h2 h3 h4
+    refine ⟨?_, by rw [hl]; exact l5 x h1 h2 h3 h4⟩
+    rw [hr, r5 x h1 h2 h3 h4]
+    cases c.req x <;> simp [h3, h4]
+
+/-- 4. the native entries are gone from requests and limits. -/
+theorem native_erased (pc : PC) (h : IsTier pc) (c : Ctr) :
+    (mutateCtr pc c).req Res.cpu = none ∧ (mutateCtr pc c).req Res.memory = none ∧
+    (mutateCtr pc c).lim Res.cpu = none ∧ (mutateCtr pc c).lim Res.memory = none := by
+  obtain ⟨_, hl, hr⟩ := mutateCtr_spec pc h c
+  obtain ⟨l1, l2⟩ := native_erased_list pc h c.lim
+  obtain ⟨r1, r2⟩ := native_erased_list pc h c.req
+  have n1 : Res.cpu ≠ tierCPU pc ∧ Res.cpu ≠ tierMem pc := by rcases h with rfl | rfl <;> simp [tierCPU, tierMem]
+  have n2 : Res.memory ≠ tierCPU pc ∧ Res.memory ≠ tierMem pc := by rcases h with rfl | rfl <;> simp [tierCPU, tierMem]
+  refine ⟨?_, ?_, by rw [hl]; exact l1, by rw [hl]; exact l2⟩
+  · rw [hr, r1]; simp [n1.1, n1.2]
+  · rw [hr, r2]; simp [n2.1, n2.2]
+
+/-- 5. a tier limit always comes with a request; a request that was not declared (natively or
+    as a tier entry) equals the limit. -/
+theorem request_defaults_to_limit (pc : PC) (h : IsTier pc) (c : Ctr) (x : Res) (hx : x = tierCPU pc ∨ x = tierMem pc) :
+    ((mutateCtr pc c).lim x ≠ none → (mutateCtr pc c).req x ≠ none) ∧
+    (replaceBoth pc c.req x = none → (mutateCtr pc c).req x = (mutateCtr pc c).lim x) := by
+  obtain ⟨_, hl, hr⟩ := mutateCtr_spec pc h c
+  rw [hr, hl]
+  constructor
+  · intro hlim
+    cases hq : replaceBoth pc c.req x with
+    | some v => simp
+    | none => simp [hx]; exact hlim
+  · intro hq; rw [hq]; simp [hx]
+
+/-- 7 (container level). translating a translated container changes nothing. -/
+theorem mutateCtr_idempotent (pc : PC) (c : Ctr) : mutateCtr pc (mutateCtr pc c) = mutateCtr pc c := by
+  by_cases h : IsTier pc
+  · obtain ⟨e1, e2, e3, e4⟩ := native_erased pc h c
+    have ht : translated pc (mutateCtr pc c) = mutateCtr pc c := by
+      unfold translated
+      rw [replaceBoth_noop pc _ e1 e2, replaceBoth_noop pc _ e3 e4]
+    have hno : ∀ (d : Ctr) (r e : Res), resourceNameMap pc r = some e → (d.lim e ≠ none → d.req e ≠ none) → restrict pc d r = d := by
+      intro d r e he himp
+      unfold restrict; rw [he]
+      cases h1 : d.req e <;> cases h2 : d.lim e <;> simp only []
+      exact absurd h1 (himp (by simp [h2]))
+    have hc : resourceNameMap pc Res.cpu = some (tierCPU pc) := by rcases h with rfl | rfl <;> rfl
+    have hm : resourceNameMap pc Res.memory = some (tierMem pc) := by rcases h with rfl | rfl <;> rfl
+    have d1 := (request_defaults_to_limit pc h c (tierCPU pc) (Or.inl rfl)).1
+    have d2 := (request_defaults_to_limit pc h c (tierMem pc) (Or.inr rfl)).1
+    show restrict pc (restrict pc (translated pc (mutateCtr pc c)) Res.cpu) Res.memory = _
+    rw [ht, hno _ _ _ hc d1, hno _ _ _ hm d2]
+  · have hn : ∀ r, resourceNameMap pc r = none := by
+      intro r; cases pc <;> cases r <;> simp_all [IsTier, resourceNameMap]
+    simp [mutateCtr, translated, restrict, replaceBoth, replaceAndErase, hn]
+
+/-- 8. a class without extended resource names (prod, free, none) leaves a container untouched. -/
+theorem mutateCtr_non_tier (pc : PC) (h : ¬ IsTier pc) (c : Ctr) : mutateCtr pc c = c := by
+  have hn : ∀ r, resourceNameMap pc r = none := by
+    intro r; cases pc <;> cases r <;> simp_all [IsTier, resourceNameMap]
+  simp [mutateCtr, translated, restrict, replaceBoth, replaceAndErase, hn]
+
+
 end KoordVerif.C13
